@@ -23,8 +23,8 @@ def count(hist: list, ev: str) -> int:
     return sum(1 for e in hist if e == ev)
 
 
-def enabled_events(hist: list, tier: str) -> list:
-    evs = QUICK_EVENTS if tier == 'quick' else THOROUGH_EVENTS
+def enabled_events(hist: list, tier: str, events: list = None) -> list:
+    evs = events if events is not None else (QUICK_EVENTS if tier == 'quick' else THOROUGH_EVENTS)
     out = []
     n_origin = count(hist, 'O') + count(hist, 'O5')
     n_ch = count(hist, 'CH') + count(hist, 'CHS')
